@@ -3,7 +3,7 @@ import hashlib
 
 from hypothesis import strategies as st
 
-from vlib.runner import good, bad, HarnessError
+from vlib.runner import good, bad, HarnessError, BaselineBroken
 from vlib.det import DET
 from vlib import scenario as sc
 from vlib.deviant import Deviant
@@ -208,7 +208,7 @@ def run_site(site, ver, key, corr, seed, record=None):
         outs, _ = drive({"s": p.s.request_post_handshake_auth()}, p.link,
                         on_stall="leave")
         if not outs["s"].ok:
-            raise HarnessError("PHA request failed: %r" % (outs["s"],))
+            raise BaselineBroken("pha-request", repr(outs["s"]))
         # client processes the request (and answers), server reads answer
         oc = sc.do_read(p, "c", 10, 0)
         os_ = sc.do_read(p, "s", 10, 0)
@@ -294,8 +294,7 @@ def check_sig(case):
         if not p.both_ok:
             if corr == "unoffered":
                 return good(nt=False, labels=labels + ["not-applicable"])
-            raise HarnessError("PHA base handshake failed %r %r" % (p.co,
-                                                                    p.so))
+            raise BaselineBroken("pha-base-handshake", "%r %r" % (p.co, p.so))
         os_ = info["pha_server"]
         got = p.s.session.clientCertChain
         if corr in ("unoffered", "resigned_ok"):
